@@ -39,4 +39,23 @@ theorem C07_kernel_is_source (acc : Access) (client account op name : String) :
     check acc client account op = checkWrap false acc client account op :=
   ⟨regexify_eq_gen name, check_eq_gen acc client account op⟩
 
+/-- **C07 (the signer's pre-check is the source).** For every configuration, client, address, operation and lock-state
+    fault, the model's `preCheck` — fetch the account (by key when a key is given, else by name), ask the checker about
+    `wallet/account` and the operation, unlock — is the decoding of the functions translated on every run from the Go source of
+    `preCheck`, `fetchAccount`, `checkAccess` and `unlockAccount` (services/signer/standard/helpers.go), composed as the source
+    composes them (the first result that is not SUCCEEDED is returned); and the name handed to the checker is, in the source as
+    it is now, `fmt.Sprintf("%s/%s", wallet.Name(), account.Name())`, after the fetch and before the unlock. -/
+theorem C07_precheck_is_source (cfg : Config) (client : String) (a : Addr) (op : String) (lockStateFail : Bool) :
+    (fetchAccount cfg a = none → preCheck cfg client a op lockStateFail = .error .denied) ∧
+    (∀ acct, fetchAccount cfg a = some acct → ∀ isUnlocked unlockOk : Bool,
+        (isUnlocked || unlockOk) = acct.unlockable →
+        preCheck cfg client a op lockStateFail =
+          preCheckOfCode acct (Gen.preCheckGen (fetchAccountG cfg a).1
+            (Gen.checkAccessGen (check cfg.access client (Gen.preCheckCheckedNameFnGen acct.wallet acct.name a.name op) op))
+            (Gen.unlockAccountGen false false true lockStateFail isUnlocked false unlockOk))) ∧
+    Gen.preCheckOrderGen = ["fetchAccount", "checkAccess", "unlockAccount"] :=
+  ⟨fun h => ((preCheck_eq_gen cfg client a op lockStateFail).1 h 0 0).2,
+   fun acct h iu uo hu => ((preCheck_eq_gen cfg client a op lockStateFail).2 acct h iu uo hu).1,
+   preCheck_shape_is_source.2⟩
+
 end Dirk
